@@ -1,13 +1,15 @@
 #!/bin/bash
 # tools/seedmatrix.sh [seeds...] : for every stored seeded change, build its property's quick check against a scratch
 # worktree with the patch applied (VERIF_REPO; /repo untouched) at several VERIF_SEED values; prints one line per run.
-# Output is meant to be redirected to seeded/MATRIX.txt.
+# Output is meant to be redirected to seeded/MATRIX.txt. SEEDMX_FILTER='*-r7-*' restricts the run to matching names.
 set -u
 seeds=${*:-1 2 3}
 cd /verif
 for d in seeded/*/; do
   name=$(basename $d); id=${name%%-*}
   [ -f $d/patch.diff ] || continue
+  # SEEDMX_FILTER: only the changes whose directory name matches this shell pattern (e.g. '*-r7-*')
+  case $name in ${SEEDMX_FILTER:-*}) ;; *) continue;; esac
   grep -q '"superseded"' $d/meta.json && { echo "$name superseded"; continue; }
   scr=/tmp/seedmx-$$
   # the patch was written against the HEAD of its day: use the newest commit it still applies to
